@@ -5,8 +5,9 @@
 (* parameters, so that the work is spread over the workers), checks on     *)
 (* the model that every implementation-shaped algorithm (A-layer) refines  *)
 (* the meaning (M-layer) over the whole generated space -- or falls into a *)
-(* *named* deviation class, which is printed with the case (field "ac")    *)
-(* -- and prints each complete case as one JSON line for the driver.       *)
+(* *named* deviation class, which is printed with the case (field "ac";    *)
+(* none is open at present) -- and prints each complete case as one JSON   *)
+(* line for the driver.                                                    *)
 (* Tier "random" draws the parameters with RandomElement (tlc -simulate).  *)
 (***************************************************************************)
 EXTENDS C19_Arith, C19_PolyRing, Json
@@ -346,9 +347,8 @@ PolyDev(c) ==
     IF HasSym(Mapped(c, c.P)) \/ HasSym(Mapped(c, c.Q)) THEN "UNNAMED"      \* never generated: every parameter is bound
     ELSE IF c.op \in {"divmod", "divmods"} \/ (c.op = "pow" /\ c.k < 0) THEN ""
     ELSE IF PEq(FromData(OpImpl(c.op, Mapped(c, c.P), Mapped(c, c.Q), c.s, c.k)), OpSpec(c.op, a, b, c.s, c.k)) THEN ""
-    ELSE IF c.op = "rsubs" THEN "Dev_RsubSign"
-    ELSE IF c.op = "mul" /\ MulHits(Mapped(c, c.P), Mapped(c, c.Q)) THEN "Dev_PopKeepsLastExp"
-    ELSE IF c.op = "pow" /\ PowHits(a, c.k) THEN "Dev_PopKeepsLastExp"
+    \* (no named deviation is open: Dev_GeneratorConsumed, Dev_RsubSign and Dev_PopKeepsLastExp were
+    \* repaired in the code and the A-layer follows the code)
     ELSE "UNNAMED"
 PolyRefinesOrNamed == (Complete /\ st.part = "poly") => PolyDev(st) # "UNNAMED"
 \* the transcribed division satisfies the division identity and stops only legitimately
